@@ -17,3 +17,7 @@ Definition cmp_Z (c : cmp) (a b : Z) : bool :=
   | CLe => (a <=? b)%Z | CLt => (a <? b)%Z | CGe => (b <=? a)%Z | CGt => (b <? a)%Z
   | CEq => (a =? b)%Z | CNe => negb (a =? b)%Z
   end.
+
+(* the shape of the prefix test in DirectoryMatcher._check_path_match:
+   path_str.startswith(dir_path)  or  path_str.startswith(dir_path.rstrip(c) + sep) *)
+Inductive prefix_form := PfBare | PfRstripSep (strip : ascii) (sep : string).
